@@ -80,17 +80,22 @@ Qed.
 
 (* a loop over 0..n-1 whose step i changes entry i of an array only, by a function of the old entry *)
 Lemma fold_zrange_pointwise {S A : Type} (step : S -> Z -> S) (get : S -> Z -> A) (F : Z -> A -> A) (n : nat) :
-  (forall s i, get (step s i) i = F i (get s i)) ->
+  (forall s i, (0 <= i < Z.of_nat n)%Z -> get (step s i) i = F i (get s i)) ->
   (forall s i j, j <> i -> get (step s i) j = get s j) ->
   forall s0 j,
     ((0 <= j < Z.of_nat n)%Z -> get (fold_left step (zrange (Z.of_nat n)) s0) j = F j (get s0 j)) /\
     (~ (0 <= j < Z.of_nat n)%Z -> get (fold_left step (zrange (Z.of_nat n)) s0) j = get s0 j).
 Proof.
-  intros Hsame Hother. induction n as [|n IH]; intros s0 j.
+  induction n as [|n IH]; intros Hsame Hother s0 j.
   - split; [lia|]. intros _. reflexivity.
   - rewrite zrange_snoc, fold_left_app. cbn [fold_left].
-    destruct (IH s0 j) as [IH1 IH2].
+    destruct (IH (fun s i Hi => Hsame s i ltac:(lia)) Hother s0 j) as [IH1 IH2].
     destruct (Z.eq_dec j (Z.of_nat n)) as [->|Hne].
     + split; [|lia]. intros _. rewrite Hsame, IH2 by lia. reflexivity.
     + rewrite Hother by exact Hne. split; intros H; [apply IH1|apply IH2]; lia.
 Qed.
+
+Lemma firstn_nth2 {A} (d : A) l : length l = 2%nat -> firstn 2 l = [nth 0 l d; nth 1 l d].
+Proof. destruct l as [|a [|b [|c l]]]; intros H; try discriminate H; reflexivity. Qed.
+Lemma firstn_nth3 {A} (d : A) l : length l = 3%nat -> firstn 3 l = [nth 0 l d; nth 1 l d; nth 2 l d].
+Proof. destruct l as [|a [|b [|c [|e l]]]]; intros H; try discriminate H; reflexivity. Qed.
